@@ -26,3 +26,13 @@ reg('C13', 'static analysis: dispatch-ladder exhaustiveness over Command subclas
 reg('C20', 'static analysis: exactly-once typestate by enumeration of every acyclic CFG path of each adapter callback; run-once guard facts',
     'For every nesting/outcome/order: each path through each adapter resolves the output future exactly once (result, captured exception, cancel '
     'or re-registration); cancelled() is tested before result(); CancellableAction runs only while pending, inside capture_exceptions(self).', NOTE)
+
+reg('C02', 'static analysis: dispatch-ladder exhaustiveness (entering/entered hooks per state), writer ownership of the process future, CFG '
+    'exactly-once on every non-raising path (future resolution, terminal listener event, close), provenance of reported values, '
+    'call-graph reachability of a resolver for every future step() blocks on',
+    'For all schedules: who may resolve the process future and with what, one terminal notification per path, on_terminated iff terminal, cleanups '
+    'at most once, and every way into a terminal state releases the stepping task. Agreement of the views at every point is otherwise not decided.', NOTE)
+reg('C05', 'static analysis: CFG dominance (pause gate before the state\'s execute), must-fact guard ladder of pause(), must-pass-through of the '
+    'deferred step\'s transition, save-before-overwrite / restore pairing of the status, resolve-and-clear discipline of the pause future',
+    'For all placements of pause/play: nothing runs while paused (gate dominates execute), pause() cannot run in the middle of a step or twice, the '
+    'in-flight step is entered, status is restored, play() un-pauses and cancels a pending pause. Equality with the uninterrupted run is not decided.', NOTE)
